@@ -3,10 +3,12 @@
 import glob, json, os, sys
 ROOT = os.path.dirname(os.path.dirname(os.path.abspath(__file__)))
 pid = sys.argv[1]
+rnd = sys.argv[2] if len(sys.argv) > 2 else "r3"
+focus_file = {"r3": "deep_focus.json"}.get(rnd, "deep_focus_%s.json" % rnd)
 prop = next(json.loads(l) for l in open(os.path.join(ROOT, "properties.jsonl")) if json.loads(l)["id"] == pid)
 text = "\n".join("%s: %s" % (k, json.dumps(prop[k], ensure_ascii=False) if not isinstance(prop[k], str) else prop[k])
                  for k in ("id", "title", "statement", "quantifier", "why_tests_cant", "anchors") if k in prop)
-focus = json.load(open(os.path.join(ROOT, "docs", "deep_focus.json")))[pid]
+focus = json.load(open(os.path.join(ROOT, "docs", focus_file)))[pid]
 reports = ", ".join(sorted(glob.glob(os.path.join(ROOT, "docs", "reports", pid + "*.md")))) or "(none)"
 t = open(os.path.join(ROOT, "docs", "deep_prompt.tmpl")).read()
-print(t.format(pid=pid, low=pid.lower(), prop=text, focus=focus, reports=reports))
+print(t.format(pid=pid, low=pid.lower(), prop=text, focus=focus, reports=reports, rnd=rnd))
